@@ -347,3 +347,114 @@ Proof.
   intros Hmax Hok. destruct (uint_tok max ic n Hmax Hok) as [H1 H2].
   apply read_field_runs; [exact H1|exact H2|]. apply uint_roundtrip. exact Hok.
 Qed.
+
+(* ---- $INCLUDE file names ------------------------------------------------------------------------------------------------------------- *)
+
+Lemma rev_fast_is_rev {A} (l : list A) : rev_fast l = rev l.
+Proof. unfold rev_fast. rewrite rev_append_rev. apply app_nil_r. Qed.
+
+Lemma bind_ret_l_tok {A B} (a : A) (f : A -> M B) r : bindM (ret a) f r = f a r.
+Proof. reflexivity. Qed.
+
+Lemma push_path_ok {B} o p n start (K : bytes * N -> M B) r : n < 65536 ->
+  bindM (push_path_octet o p n start) K r = K (o :: p, n + 1) r.
+Proof.
+  intros H. unfold push_path_octet. change INCLUDE_PATH_MAX with 65536.
+  destruct (n <? 65536) eqn:E; [reflexivity|apply N.ltb_ge in E; lia].
+Qed.
+
+Lemma pqip_runs : forall s es acc n fuel start b, octets_ok KQuoted es s = true ->
+  n + N.of_nat (length s) <= 65536 ->
+  runsN fuel anyt (pqip_loop fuel start acc n) (render_octets es s ++ [34]) b b (rev acc ++ s).
+Proof.
+  induction s as [|c s IH]; intros es acc n fuel start b Hok Hlen; (destruct fuel as [|fuel]; [apply runsN_0|]).
+  - cbn [render_octets pqip_loop app]. rewrite app_nil_r. apply runsN_getpos. intros p.
+    change [34] with ([34] ++ []). eapply runsN_bind; [apply read_octet_runs|intros; exact I|].
+    cbv beta iota. change (34 =? 92) with false. change (34 =? 34) with true. cbv iota. rewrite rev_fast_is_rev. apply runs_N, runs_ret.
+  - cbn [octets_ok] in Hok. apply andb_true_iff in Hok. destruct Hok as [Hc Hs].
+    cbn [length] in Hlen. rewrite Nat2N.inj_succ in Hlen.
+    assert (Hacc : rev (c :: acc) ++ s = rev acc ++ c :: s) by (cbn [rev]; rewrite <- app_assoc; reflexivity).
+    cbn [render_octets pqip_loop]. apply runsN_getpos. intros p. rewrite <- app_assoc.
+    destruct (hd EDec es) eqn:Ee.
+    + apply esc_ok_raw, raw_quoted in Hc. destruct Hc as [H34 H92].
+      cbn [render_octet]. eapply runsN_bind_dec; [apply read_octet_runs|discriminate|intros; exact I|].
+      cbv beta iota. apply N.eqb_neq in H92, H34. rewrite H92, H34.
+      eapply runsN_eq; [intros r; apply push_path_ok; lia|]. cbn [fst snd].
+      rewrite <- Hacc. apply IH; [exact Hs|lia].
+    + rewrite (render_octet_esc EChar c) by discriminate. cbn [app].
+      change (92 :: tl (render_octet EChar c) ++ render_octets (tl es) s ++ [34])
+        with ([92] ++ tl (render_octet EChar c) ++ render_octets (tl es) s ++ [34]).
+      eapply runsN_bind_dec; [apply read_octet_runs|discriminate|intros; exact I|].
+      cbv beta iota. change (92 =? 92) with true. cbv iota.
+      eapply runsN_bind; [eapply escape_runs; [|exact Hc]; discriminate|intros; exact I|].
+      cbv beta. eapply runsN_eq; [intros r; apply push_path_ok; lia|]. cbn [fst snd].
+      rewrite <- Hacc. apply IH; [exact Hs|lia].
+    + rewrite (render_octet_esc EDec c) by discriminate. cbn [app].
+      change (92 :: tl (render_octet EDec c) ++ render_octets (tl es) s ++ [34])
+        with ([92] ++ tl (render_octet EDec c) ++ render_octets (tl es) s ++ [34]).
+      eapply runsN_bind_dec; [apply read_octet_runs|discriminate|intros; exact I|].
+      cbv beta iota. change (92 =? 92) with true. cbv iota.
+      eapply runsN_bind; [eapply escape_runs; [|exact Hc]; discriminate|intros; exact I|].
+      cbv beta. eapply runsN_eq; [intros r; apply push_path_ok; lia|]. cbn [fst snd].
+      rewrite <- Hacc. apply IH; [exact Hs|lia].
+Qed.
+
+Lemma puip_runs : forall s es acc n fuel start b, octets_ok KUnquoted es s = true ->
+  n + N.of_nat (length s) <= 65536 ->
+  runsN fuel fend (puip_loop fuel start acc n) (render_octets es s) b b (rev acc ++ s).
+Proof.
+  induction s as [|c s IH]; intros es acc n fuel start b Hok Hlen; (destruct fuel as [|fuel]; [apply runsN_0|]).
+  - cbn [render_octets puip_loop]. rewrite app_nil_r.
+    change (@nil N) with (@nil N ++ []). eapply runsN_bind; [apply rfo_end|intros t Ht; exact Ht|].
+    cbv beta iota. rewrite rev_fast_is_rev. apply runs_N, runs_ret.
+  - cbn [octets_ok] in Hok. apply andb_true_iff in Hok. destruct Hok as [Hc Hs].
+    cbn [length] in Hlen. rewrite Nat2N.inj_succ in Hlen.
+    assert (Hacc : rev (c :: acc) ++ s = rev acc ++ c :: s) by (cbn [rev]; rewrite <- app_assoc; reflexivity).
+    cbn [render_octets puip_loop]. destruct (hd EDec es) eqn:Ee.
+    + apply esc_ok_raw, raw_unq_plain in Hc. destruct Hc as [Hp H92].
+      cbn [render_octet]. eapply runsN_bind_dec; [apply rfo_plain; exact Hp|discriminate|intros; exact I|].
+      cbv beta iota. apply N.eqb_neq in H92. rewrite H92.
+      eapply runsN_eq; [intros r; apply bind_ret_l_tok|].
+      eapply runsN_eq; [intros r; apply push_path_ok; lia|]. cbn [fst snd].
+      rewrite <- Hacc. apply IH; [exact Hs|lia].
+    + rewrite (render_octet_esc EChar c) by discriminate. cbn [app].
+      change (92 :: tl (render_octet EChar c) ++ render_octets (tl es) s)
+        with ([92] ++ tl (render_octet EChar c) ++ render_octets (tl es) s).
+      eapply runsN_bind_dec; [apply rfo_plain; exact plain92|discriminate|intros; exact I|].
+      cbv beta iota. change (92 =? 92) with true. cbv iota.
+      eapply runsN_bind; [eapply escape_runs; [|exact Hc]; discriminate|intros; exact I|].
+      cbv beta. eapply runsN_eq; [intros r; apply push_path_ok; lia|]. cbn [fst snd].
+      rewrite <- Hacc. apply IH; [exact Hs|lia].
+    + rewrite (render_octet_esc EDec c) by discriminate. cbn [app].
+      change (92 :: tl (render_octet EDec c) ++ render_octets (tl es) s)
+        with ([92] ++ tl (render_octet EDec c) ++ render_octets (tl es) s).
+      eapply runsN_bind_dec; [apply rfo_plain; exact plain92|discriminate|intros; exact I|].
+      cbv beta iota. change (92 =? 92) with true. cbv iota.
+      eapply runsN_bind; [eapply escape_runs; [|exact Hc]; discriminate|intros; exact I|].
+      cbv beta. eapply runsN_eq; [intros r; apply push_path_ok; lia|]. cbn [fst snd].
+      rewrite <- Hacc. apply IH; [exact Hs|lia].
+Qed.
+
+Theorem path_runs pc path b : path_ok pc path = true ->
+  runs (ftail (quoted pc)) parse_include_path (render_string pc path) b b path.
+Proof.
+  unfold path_ok. intros H. apply andb_true_iff in H. destruct H as [Hlen H]. apply N.leb_le in Hlen.
+  destruct pc as [es|es]; cbn [quoted ftail render_string].
+  - intros r t E P W Ht. unfold parse_include_path, peek_octet. rewrite E. cbn [app hd_error].
+    change (34 =? 34) with true. cbv iota. revert r t E P W Ht.
+    change (runs anyt (do start <- getpos; do _ <- lift read_octet; do fuel <- get_fuel; pqip_loop fuel start [] 0)
+                 (34 :: render_octets es path ++ [34]) b b path).
+    apply runs_getpos. intros p.
+    change (34 :: render_octets es path ++ [34]) with ([34] ++ render_octets es path ++ [34]).
+    eapply runs_bind; [apply read_octet_runs|intros; exact I|]. cbv beta.
+    apply runs_get_fuel. intros n. apply (pqip_runs path es [] 0 n p b H). lia.
+  - apply andb_true_iff in H. destruct H as [H Hq]. apply andb_true_iff in H. destruct H as [H Hne].
+    intros r t E P W Ht. unfold parse_include_path, peek_octet. rewrite E.
+    assert (G : match hd_error (render_octets es path ++ t) with Some c => c =? 34 | None => false end = false).
+    { destruct (render_octets es path) as [|x l] eqn:El.
+      - destruct path; [discriminate|]. cbn [render_octets] in El. destruct (hd EDec es); discriminate.
+      - cbn [app hd_error]. cbn [head_is] in Hq. apply negb_true_iff in Hq. exact Hq. }
+    rewrite G. clear G. revert r t E P W Ht.
+    change (runs fend (do start <- getpos; do fuel <- get_fuel; puip_loop fuel start [] 0) (render_octets es path) b b path).
+    apply runs_getpos. intros p. apply runs_get_fuel. intros n. apply (puip_runs path es [] 0 n p b H). lia.
+Qed.
